@@ -319,8 +319,10 @@ theorem groupvm_is_corevm_partial_merge (fuel : Nat) (s : CoreVM.VM) (f : CoreIn
     (hleaf : ∀ c ∈ us.map (·.1), ((OMap.lookup (f, c) s.r.hx).getD {}).childHeadUids = [])
     (hmu : mu ∉ us.map (·.1)) (hfp : fp ≠ pe + 2) :
     ∃ s' i' x', CoreVM.slide (fuel + 4) f uj.1 s = .ok [(f, r)] s' ∧ CoreVM.FlowAt s' f i' x' cfg ∧ x'.ctxOwner = x.ctxOwner ∧
-      CoreVM.hview i' = [(r, pe + 2, CoreIndex.HeadStatus.active)] ∧ s'.r.nextUid = s.r.nextUid :=
-  CoreVM.and_clause_completes fuel s f i x cfg l mu pe n fp r us ms j uj a F C hv hlen hndu hju hjm hone hfu hhx hleaf hmu hfp
+      CoreVM.hview i' = [(r, pe + 2, CoreIndex.HeadStatus.active)] ∧ s'.r.nextUid = s.r.nextUid := by
+  obtain ⟨s', i', x', h1, h2, h3, h4, h5, _⟩ :=
+    CoreVM.and_clause_completes fuel s f i x cfg l mu pe n fp r us ms j uj a F C hv hlen hndu hju hjm hone hfu hhx hleaf hmu hfp
+  exact ⟨s', i', x', h1, h2, h3, h4, h5⟩
 
 /-- **groupvm_is_corevm_partial (one event on a pure and-group, any size).**  Composition of the segments: between two events the
     member heads are on their `match` elements or parked (`QMs ms`), the forking head `r` is INACTIVE.  Advancing the heads that wait
@@ -521,8 +523,9 @@ theorem groupvm_is_corevm_partial_exit (fuel : Nat) (s : CoreVM.VM) (f : CoreInd
     (hp : CoreVM.PlainSpec spec n) (hargs : spec.args = []) (hint : CoreVM.internalEvents.contains n = false)
     (hcl : ((OMap.lookup (f, h) s.r.hx).getD {}).catchLabels.isEmpty = false) :
     ∃ s' i', CoreVM.advanceMember (fuel + 2) f h s = .ok [] s' ∧ CoreVM.FlowAt s' f i' x cfg ∧
-      CoreVM.hview i' = (CoreVM.hview i).map (CoreVM.setPosCore h (hd.pos + 2)) :=
-  CoreVM.group_exit fuel s f h i x cfg hd spec n H hsz hc1 hc2 hp hargs hint hcl
+      CoreVM.hview i' = (CoreVM.hview i).map (CoreVM.setPosCore h (hd.pos + 2)) := by
+  obtain ⟨s', i', h1, h2, h3, _⟩ := CoreVM.group_exit fuel s f h i x cfg hd spec n H hsz hc1 hc2 hp hargs hint hcl
+  exact ⟨s', i', h1, h2, h3⟩
 
 /-- **groupvm_is_corevm_partial (a pure or-group of single atoms from its first element to completion, every event sequence, EVERY
     tie-break).**  The root head is the only head of the instance, ACTIVE on `CatchPatternFailure; ForkHead mu [l_1 … l_n]`, and the
@@ -1306,5 +1309,83 @@ example :=
     rfl rfl (by decide) rfl rfl
     (by intro o ho; simp [exInstStarted, exInst] at ho; rcases ho with rfl | rfl | rfl <;> decide)
 example : CoreVM.matchingB 0 [("h1", 4), ("h2", 7)] [.single 0, .single 0] = ["h1", "h2"] := by decide
+
+/-- **groupvm_is_corevm_partial (exit segment through the interpreter model's real `_advance_head_front`).**  The hypotheses of
+    `groupvm_is_corevm_partial_exit`, the flow STARTED, every head inside the program.  CoreVM's own `advanceHeadFront` on the forking
+    head (back ACTIVE on the group's last `MergeHeads`) moves it over `CatchPatternFailure(None)` onto the marker `send` behind the group
+    statement and — the "all heads are waiting" scan finds this head on an action — hands it back as actionable: the statement after
+    the group is what the interpreter executes next. -/
+theorem groupvm_is_corevm_partial_exit_real (fuel : Nat) (s : CoreVM.VM) (f : CoreIndex.FUid) (h : CoreIndex.HUid) (i : CoreIndex.Inst)
+    (x : CoreVM.InstX) (cfg : CoreVM.FlowCfg) (hd : CoreIndex.Head) (spec : CoreVM.Spec) (n : String)
+    (H : CoreVM.HeadAt s f h i x cfg hd) (hsz : hd.pos + 2 < cfg.elements.size)
+    (hc1 : cfg.elements[hd.pos + 1]! = .catchFail none) (hc2 : cfg.elements[hd.pos + 2]! = .sendOp spec)
+    (hp : CoreVM.PlainSpec spec n) (hargs : spec.args = []) (hint : CoreVM.internalEvents.contains n = false)
+    (hcl : ((OMap.lookup (f, h) s.r.hx).getD {}).catchLabels.isEmpty = false)
+    (hact : hd.status = .active) (hstarted : i.status = .started)
+    (hnd : ((CoreVM.hview i).map (·.1)).Nodup) (hrange : ∀ o ∈ i.heads, o.pos < cfg.elements.size) :
+    ∃ s' i', CoreVM.advanceHeadFront (fuel + 3) [(f, h)] s = .ok [(f, h)] s' ∧ CoreVM.FlowAt s' f i' x cfg ∧
+      CoreVM.hview i' = (CoreVM.hview i).map (CoreVM.setPosCore h (hd.pos + 2)) := by
+  obtain ⟨s', i', h1, h2, h3, _⟩ := CoreVM.group_exit_real fuel s f h i x cfg hd spec n H hsz hc1 hc2 hp hargs hint hcl hact hstarted hnd hrange
+  exact ⟨s', i', h1, h2, h3⟩
+
+def exIxsExitStarted : CoreVM.IxS := exIxsExit.apply (.setFlowStatus "m" .started) (by decide)
+def exVMExitStarted : CoreVM.VM := { exVMExit with ixs := exIxsExitStarted }
+
+-- non-vacuity of `groupvm_is_corevm_partial_exit_real`
+example :=
+  groupvm_is_corevm_partial_exit_real 1 exVMExitStarted "m" "h0"
+    { uid := "m", status := .started, heads := [{ uid := "h0", pos := 15, status := .active, elem := none }] }
+    exX exCfgAndHit { uid := "h0", pos := 15, status := .active, elem := none } (exSpec "Hit") "Hit"
+    { hi := rfl, hx := rfl, hc := rfl, hh := rfl, hlt := by decide, hst := by decide } (by decide) rfl rfl ⟨rfl, rfl, rfl⟩ rfl (by decide) rfl
+    rfl rfl (by decide) (by intro o ho; simp at ho; subst ho; decide)
+
+/-- **groupvm_is_corevm_partial (the merging loop's call of the interpreter model's real `_advance_head_front` on an and-group).**  After
+    phase 1 (`…_advance_heads`) the member head that completed the clause is MERGING and was handed back; `runToCompletion`'s merging loop
+    calls `_advance_head_front` with it (event queue empty).  The hypotheses of `groupvm_is_corevm_partial_merge`, the flow STARTED, the
+    group statement followed by `CatchPatternFailure(None)` and the marker `send`: CoreVM's own `advanceHeadFront` merges (the forking
+    head takes over, every member head is deleted), its NESTED call advances the forking head over `CatchPatternFailure(None)` onto the
+    statement after the group, where it is actionable; back in the outer call the merged head is detached (not cleared), nothing is
+    finished or aborted; the forking head — the only head left, on the marker — is what the main loop gets.  Any clause size. -/
+theorem groupvm_is_corevm_partial_merge_real (fuel : Nat) (s : CoreVM.VM) (f : CoreIndex.FUid) (i : CoreIndex.Inst) (x : CoreVM.InstX)
+    (cfg : CoreVM.FlowCfg) (l mu : String) (pe n fp : Nat)
+    (r : CoreIndex.HUid) (us : List (CoreIndex.HUid × Nat)) (ms : List (Nat × MLoc)) (j : Nat) (uj : CoreIndex.HUid × Nat) (a : Nat)
+    (spec : CoreVM.Spec) (nm : String)
+    (F : CoreVM.FlowAt s f i x cfg) (C : CoreVM.ClauseShape cfg l mu pe n)
+    (hv : CoreVM.hview i = (r, fp, CoreIndex.HeadStatus.inactive) :: CoreVM.renderU (pe + 1) us ms)
+    (hlen : us.length = ms.length) (hndu : (r :: us.map (·.1)).Nodup)
+    (hju : us[j]? = some uj) (hjm : ms[j]? = some (a, MLoc.merging))
+    (hone : ∀ j' m', ms[j']? = some m' → j' ≠ j → m'.2 = MLoc.atWait ∨ m'.2 = MLoc.atMatch)
+    (hfu : OMap.lookup mu x.forkUids = some r)
+    (hhx : ((OMap.lookup (f, r) s.r.hx).getD {}).childHeadUids = us.map (·.1))
+    (hleaf : ∀ c ∈ us.map (·.1), ((OMap.lookup (f, c) s.r.hx).getD {}).childHeadUids = [])
+    (hmu : mu ∉ us.map (·.1)) (hfp : fp ≠ pe + 2)
+    (hstarted : i.status = .started) (hq : s.r.queue = []) (hclr : s.r.cleared.contains (f, uj.1) = false)
+    (hsz4 : pe + 4 < cfg.elements.size) (hc1 : cfg.elements[pe + 3]! = .catchFail none) (hc2 : cfg.elements[pe + 4]! = .sendOp spec)
+    (hp : CoreVM.PlainSpec spec nm) (hargs : spec.args = []) (hint : CoreVM.internalEvents.contains nm = false)
+    (hcl : ((OMap.lookup (f, uj.1) s.r.hx).getD {}).catchLabels.isEmpty = false) :
+    ∃ s' i' x', CoreVM.advanceHeadFront (fuel + 5) [(f, uj.1)] s = .ok [(f, r)] s' ∧ CoreVM.FlowAt s' f i' x' cfg ∧
+      CoreVM.hview i' = [(r, pe + 4, CoreIndex.HeadStatus.active)] :=
+  CoreVM.and_group_merge_real fuel s f i x cfg l mu pe n fp r us ms j uj a spec nm F C hv hlen hndu hju hjm hone hfu hhx hleaf hmu hfp
+    hstarted hq hclr hsz4 hc1 hc2 hp hargs hint hcl
+
+/-- `match E0() and E1()` followed by `send Hit()`, flow STARTED, E0 and E1 received: `h1` parked, `h2` MERGING (catch label of the group) -/
+def exVMMergingHit : CoreVM.VM :=
+  { ixs := exIxsMerging.apply (.setFlowStatus "m" .started) (by decide),
+    r := { prog := { flows := [exCfgAndHit] }, fx := [("m", exXFork)],
+           hx := [(("m", "h0"), { childHeadUids := ["h1", "h2"] }), (("m", "h2"), { catchLabels := ["f"] })] } }
+
+-- non-vacuity of `groupvm_is_corevm_partial_merge_real`
+example :=
+  groupvm_is_corevm_partial_merge_real 1 exVMMergingHit "m" { exInstMerging with status := .started } exXFork exCfgAndHit "e" "u" 13 2 2 "h0"
+    [("h1", 4), ("h2", 7)] [(0, .atWait), (1, .merging)] 1 ("h2", 7) 1 (exSpec "Hit") "Hit"
+    { hi := rfl, hx := rfl, hc := rfl } { hl := rfl, hsize := by decide, hw := rfl, hm := rfl } rfl rfl (by decide) rfl rfl
+    (by
+      intro j' m' h1 h2
+      rcases j' with _ | _ | j'
+      · simp at h1; subst h1; exact Or.inl rfl
+      · exact absurd rfl h2
+      · simp at h1)
+    rfl rfl (by intro c hc; simp at hc; rcases hc with rfl | rfl <;> rfl) (by decide) (by decide)
+    rfl rfl rfl (by decide) rfl rfl ⟨rfl, rfl, rfl⟩ rfl (by decide) rfl
 
 end NemoVerif.C07
